@@ -355,10 +355,10 @@ inline void Run(const Args& args, Result& res) {
         "and k=horizon; every transition compared with the reference FIFO/frame-clock model (frames, "
         "flags, interrupt count, queue content) and Skip(k) with k real Ticks; non-trivial = transition "
         "that changes state or emits a frame/interrupt";
-    std::vector<u16> periods = args.thorough() ? std::vector<u16>{1, 2, 3, 4, 5, 7, 8}
-                                               : std::vector<u16>{1, 2, 3, 4};
+    std::vector<u16> periods = args.thorough() ? std::vector<u16>{1, 2, 3, 4, 5, 6, 7, 8, 9, 12, 16, 17}
+                                               : std::vector<u16>{1, 2, 3, 4, 5, 7, 8};
     std::vector<u16> bases = {1, 0x7FF8};
-    int large_depth = args.thorough() ? 7 : 6;
+    int large_depth = args.thorough() ? 8 : 6;
     u64 dist = 0;
     for (u16 b : bases) {
         Engine eng(res, b);
